@@ -19,6 +19,7 @@ import (
 	"runtime/debug"
 	"sort"
 	"strings"
+	"time"
 
 	json "github.com/go-json-experiment/json"
 	"github.com/go-json-experiment/json/jsontext"
@@ -338,6 +339,70 @@ func roundTrip(w *run.W, v reflect.Value, os *optSet, in rtInfo) {
 	}
 }
 
+// projectTimesIntoLayouts walks a settable value and replaces every time.Time (or *time.Time) struct field
+// that carries a layout format by the fixed point of parse(format(t)) under that layout.
+func projectTimesIntoLayouts(v reflect.Value, depth int) (changed bool) {
+	if depth > 40 {
+		return false
+	}
+	switch v.Kind() {
+	case reflect.Pointer:
+		if !v.IsNil() {
+			return projectTimesIntoLayouts(v.Elem(), depth+1)
+		}
+	case reflect.Interface:
+		// values inside interfaces are not settable in place and never carry a format tag
+	case reflect.Slice, reflect.Array:
+		if v.Type().Elem().Kind() == reflect.Uint8 {
+			return false
+		}
+		for i := 0; i < v.Len(); i++ {
+			changed = projectTimesIntoLayouts(v.Index(i), depth+1) || changed
+		}
+	case reflect.Map:
+		for it := v.MapRange(); it.Next(); {
+			e := reflect.New(v.Type().Elem()).Elem()
+			e.Set(it.Value())
+			if projectTimesIntoLayouts(e, depth+1) {
+				v.SetMapIndex(it.Key(), e)
+				changed = true
+			}
+		}
+	case reflect.Struct:
+		if v.Type() == tTime {
+			return false
+		}
+		for i := 0; i < v.NumField(); i++ {
+			f := v.Field(i)
+			ff := fieldFormat(v.Type().Field(i).Tag)
+			tf := f
+			if tf.Kind() == reflect.Pointer && !tf.IsNil() {
+				tf = tf.Elem()
+			}
+			if ff.layout != "" && tf.Type() == tTime && tf.CanSet() {
+				t := tf.Interface().(time.Time)
+				for k := 0; k < 3; k++ {
+					p, err := projectTime(ff.layout, t)
+					if err != nil || p.Equal(t) && p.Format(ff.layout) == t.Format(ff.layout) && sameZone(p, t) {
+						break
+					}
+					t, changed = p, true
+				}
+				tf.Set(reflect.ValueOf(t))
+				continue
+			}
+			changed = projectTimesIntoLayouts(f, depth+1) || changed
+		}
+	}
+	return changed
+}
+
+func sameZone(a, b time.Time) bool {
+	_, oa := a.Zone()
+	_, ob := b.Zone()
+	return oa == ob
+}
+
 // pieceReader hands out b in pieces of n bytes.
 type pieceReader struct {
 	b []byte
@@ -399,6 +464,18 @@ func checkGenerated(w *run.W, a *genArgs) {
 	}
 	for i := 0; i < a.N; i++ {
 		v := g.value(t, 0)
+		// a time under a layout that cannot carry all of it (no sub-seconds, no zone, two-digit year …) is
+		// outside the round-trip domain of that representation: the value is first replaced by what the
+		// layout carries of it (as in the dedicated time sweeps), otherwise omitzero decisions could differ
+		// between the rounds for reasons that have nothing to do with the library
+		if f.formatTag {
+			p := reflect.New(t).Elem()
+			p.Set(v)
+			if projectTimesIntoLayouts(p, 0) {
+				w.Count("generated_times_moved_into_layout_domain", 1)
+			}
+			v = p
+		}
 		roundTrip(w, v, os, in)
 	}
 	w.Shape(skeleton(t, 0) + "|" + os.name)
